@@ -496,7 +496,7 @@ def main(tier: str, seed: int):
     sess.assume("ctx.now is always supplied (logical clock); episodes with unparsable timestamps are not generated (the code falls back to the wall clock for them; C01 owns that)")
     sess.assume("in-memory index only (lancedb not installed); reader-backed embed_store path not exercised")
     sess.assume("model disagreements confined to combined-score near-ties (<1e-6) are counted as inconclusive ties, not violations")
-    total = 8000 if tier == "quick" else 200000
+    total = 8000 if tier == "quick" else 600000
     nchunks = par.NWORK * (1 if tier == "quick" else 4)
     per = max(1, total // nchunks)
     for ex in par.pmap(_chunk, [(tier, seed, i, per) for i in range(nchunks)]):
